@@ -202,6 +202,7 @@ def parseHOp (t : String) : Option HOp :=
 
 def showHObs : HOp → HObs → String
   | _, .opened _ => "o"
+  | _, .refused => "na"
   | .closeSid _, .reply .ack => "c"
   | _, .reply r => showReply r
   | _, .closed => "c"
